@@ -258,6 +258,15 @@ func (e *Engine) installIntrinsics() {
 		m.joinAll()
 		return nil
 	}
+	// vfTimersFire(b): whether timers armed by the library may expire on this path
+	in[hp+"vfTimersFire"] = func(m *machine, _ *frame, _ *ssa.Function, args []value) value {
+		if args[0].(*Term) == m.ctx.False {
+			m.side["timers-off"] = true
+		} else {
+			delete(m.side, "timers-off")
+		}
+		return nil
+	}
 	in[hp+"vfHeldBy"] = func(m *machine, _ *frame, _ *ssa.Function, args []value) value {
 		return nil
 	}
